@@ -61,6 +61,17 @@ def cases(rng, tier):
     for i in range(250 if tier == "quick" else 3000):
         a, b = gen.coinductive_trap_pair(rng) if i % 4 else gen.defective_copies_pair(rng)
         cs.append(("laws %s %s %d %d" % (a.fmt(), b.fmt(), rng.randrange(1 << 30), 400 if tier == "quick" else 1500), "generated_trap"))
+    # automata whose trimming re-uses the operand's storage (every inner rule has one distinct child state and is productive and reachable)
+    # while a final state without rules is dropped: the laws A <= trim(A) <= A are then asked on objects that share storage
+    for i in range(120 if tier == "quick" else 1500):
+        n = rng.randint(2, 6)
+        rules = [(rng.choice([0, 1]), 0, ())] + [(rng.choice([2, 5]) if rng.random() < 0.7 else 3, k + 1, (k,) if rng.random() < 0.7 else (k, k)) for k in range(n)]
+        rules = [(f if len(c) != 2 else 3, p, c) for (f, p, c) in rules]
+        rules = [(2 if (len(c) == 1 and f == 3) else f, p, c) for (f, p, c) in rules]
+        fin = [n] + ([rng.randrange(n)] if rng.random() < 0.4 else []) + [50 + j for j in range(rng.randint(1, 2))]
+        a = gen.TA(fin, rules)
+        b = gen.rand_ta(rng, 3, 6, sigma=gen.SIGMA) if rng.random() < 0.5 else gen.TA([n], rules)
+        cs.append(("laws %s %s %d %d" % (a.fmt(), b.fmt(), rng.randrange(1 << 30), 400), "generated_trim_share"))
     # invariance stream: small cyclic pairs (split pairs: deciding them needs unions of copies under cyclic sub-goals) with several twins each;
     # only the 8 selections are asked, all answers of a case must coincide
     for i in range(1500 if tier == "quick" else 20000):
